@@ -31,6 +31,15 @@ func laneCase(raw json.RawMessage) ([]vf.Failure, error) {
 	if err != nil {
 		return nil, err
 	}
+	// the session so far: earlier messages of the case go through an encoder first
+	// (their own verdicts were given when they were the subject)
+	earlier, err := c.Earlier(s)
+	if err != nil {
+		return nil, err
+	}
+	for _, m := range earlier {
+		vf.GuardTimed("ProtoToJSON", callLimit, func() { _, _ = s.NewCodec().ProtoToJSON(m) })
+	}
 	fails, _ := checkEncode(s, msg, c.Extended)
 	return fails, nil
 }
@@ -94,6 +103,7 @@ func runFrom(t *testing.T, lane string, extended bool, source string) {
 			t.Fatalf("generator: %v", err)
 		}
 		nmsg := rapid.IntRange(1, 6).Draw(t, "nmsg")
+		var before [][2]string
 		for i := 0; i < nmsg; i++ {
 			md := s.Msgs[0]
 			if i > 0 {
@@ -102,6 +112,8 @@ func runFrom(t *testing.T, lane string, extended bool, source string) {
 			ctx := s.MsgCtx(extended)
 			msg := ctx.Message(t, md, 0, "m.")
 			c := caseX{Case: s.Case(msg, source), Extended: extended}
+			c.Before = append([][2]string(nil), before...)
+			before = append(before, [2]string{c.Root, c.Msg})
 			fails, doc := checkEncode(s, msg, extended)
 			c.Doc = doc
 			nt := mgen.HasHardText(doc) || strings.Contains(doc, "!type") || strings.Contains(doc, "[{") || len(ctx.Classes) > 2
